@@ -635,6 +635,59 @@ def vyukov_bounded(ctx):
                               "strong operation reports full/empty only after re-reading its own and the opposite position",
                               "the strong operation reports %s without re-reading %s (it may fail although the queue is not %s)" % (
                                   "full" if f == "do_try_push" else "empty", other, "full" if f == "do_try_push" else "empty"), fn.where(r), fn=fn)
+    # progress of the weak variants (C16): a cell that is behind its turn makes the weak operation RETURN, whatever left it behind
+    rid_w = "VBQ.weak-returns-when-behind"
+    ctx.rule(rid_w, "vyukov_bounded_queue weak operations (documented lock-free), finite execution of one loop round for every (position, cell sequence) of a "
+                    "4-cell ring: sequence == turn -> the position CAS is attempted; sequence < turn (the cell is still owned by an operation of the previous "
+                    "lap - possibly a thread that is stopped before its final sequence store) -> the operation returns its failure value; only sequence > turn "
+                    "(the position read is outdated: somebody else made progress) may go round again")
+    from .evalx import run_until
+    for f, posf in (("do_try_push", "enqueue_pos"), ("do_try_pop", "dequeue_pos")):
+        for fn in flow._shapes(ctx, X + "vyukov_bounded_queue::" + f):
+            if not any(re.search(r"%s<true" % f, i) for i in fn.insts):
+                continue
+            bad = None
+            n_pts = 0
+            try:
+                for pos in (4, 5, 6, 7):
+                    for seq in range(pos - 4, pos + 6):
+                        turn_ = pos if f == "do_try_push" else pos + 1
+                        cnt = {"loads": 0}
+                        out = {}
+
+                        def stop(f_, nid, cnt=cnt, out=out):
+                            a_ = f_.atomic(nid)
+                            if a_ and a_["field"].endswith("::" + posf):
+                                if a_["kind"] == "cas":
+                                    out["r"] = "claim"
+                                    return True
+                                if a_["kind"] == "load":
+                                    cnt["loads"] += 1
+                                    if cnt["loads"] >= 2:
+                                        out["r"] = "retry"
+                                        return True
+                            if f_.nodes[nid]["k"] == "return":
+                                out["r"] = "return"
+                                return True
+                            return False
+                        env0 = {"load:" + posf: pos, "load:sequence": seq, "index_mask": 3, "this.index_mask": 3}
+                        _env, ev_ = run_until(fn, env0, stop, max_steps=400)
+                        got = out.get("r", "return" if ev_ is None else "?")
+                        n_pts += 1
+                        want = "claim" if seq == turn_ else ("return" if seq < turn_ else "retry")
+                        if got != want and not (seq > turn_ and got == "return") and bad is None:
+                            bad = (pos, seq, turn_, got, want)
+            except Unknown as ex:
+                ctx.broken.append("VBQ.weak-returns-when-behind: %s<Weak> not executable (%s)" % (f, ex))
+                continue
+            ctx.check(bad is None, rid_w, X + "vyukov_bounded_queue::" + f + "#weak-round", "all %d (position, sequence) points decided correctly" % n_pts,
+                      "weak %s with position %s and cell sequence %s (turn %s) %s instead of %s: %s" % (
+                          f, bad[0] if bad else "", bad[1] if bad else "", bad[2] if bad else "",
+                          {"retry": "goes round again", "return": "returns", "claim": "attempts the position CAS"}.get(bad[3] if bad else "", "?"),
+                          {"retry": "retrying", "return": "returning its failure value", "claim": "claiming the position"}.get(bad[4] if bad else "", "?"),
+                          "a thread of the previous lap that is stopped before its final sequence store leaves the cell behind for ever, and this "
+                          "lock-free operation reloads an unchanged position without end" if bad and bad[3] == "retry" else "the cell protocol is broken"),
+                      fn.where(), fn=fn)
     # the public variants dispatch to the algorithm their name promises, whatever the default policy is
     ctx.rule("VBQ.variant-dispatch", "vyukov_bounded_queue: *_strong members run do_try_push/do_try_pop<Weak=false>, *_weak members <Weak=true>, the plain members the configured "
                                      "default - in every instantiated configuration (incl. default_to_weak<true>)")
@@ -1221,3 +1274,37 @@ def swing_cas_expected(ctx):
                               "the CAS on %s at line %d expects '%s', which on some path is %s: this swing can never succeed; if it is the helping swing, every other "
                               "thread spins until the stalled owner finishes (not lock-free), and _%s lags forever" % (fld, fn.nodes[c_]["l"], en["name"], bad, fld.strip("_")),
                               fn.where(c_), fn=fn)
+
+
+def kfifo_swing_expected(ctx):
+    """unbounded k-FIFO: advance_tail / advance_head swing tail_ / head_ with the caller's snapshot as expected value"""
+    rid = "Q.swing-expected"
+    for pat, fld in ((X + "kirsch_kfifo_queue::advance_tail", "tail_"), (X + "kirsch_kfifo_queue::advance_head", "head_")):
+        for fn in flow._shapes(ctx, pat):
+            cas = [e for e in flow.find(fn, {"k": "call", "kind": "cas"}) if fn.atomic(e)["field"].endswith("::" + fld)]
+            if not cas:
+                ctx.broken.append("%s: no CAS on %s" % (pat, fld))
+                continue
+            for c_ in cas:
+                exp = fn.kids(c_)[1]
+                s_ = flow.srcs(fn, exp)
+                inst = "%s#%s-cas@L-rel%d" % (pat, fld, cas.index(c_))
+                ok = ("load:" + fld) in s_ and not any(t.startswith("load:") and t != "load:" + fld for t in s_)
+                if not ok and any(t.startswith("param#") for t in s_) and not any(t.startswith("load:") for t in s_):
+                    # the caller's snapshot: it must have been compared with the field (equal) before the swing, or be handed over by callers that loaded it
+                    is_par = lambda f_, x: any(t.startswith("param#") for t in flow.srcs(f_, x)) and not flow.has_src(f_, x, "load:" + fld)
+                    is_fld = lambda f_, x: flow.has_src(f_, x, "load:" + fld)
+                    okv, path, n = flow.only_via_want(fn, c_, flow.cmp_want(is_par, is_fld))
+                    ok = okv and n > 0
+                    if not ok:
+                        # validated by the callers? every call site passes a value loaded from the field
+                        callers = [(g, e) for g in ctx.facts.fns for b, i, e, n_ in g.events()
+                                   if n_["k"] == "call" and n_.get("callee") == pat]
+                        idx = int(sorted(t for t in s_ if t.startswith("param#"))[0][6:])
+                        ok = bool(callers) and all(
+                            ("load:" + fld) in flow.srcs(g, g.kids(e)[idx + (1 if g.nodes[e].get("member") else 0)]) for g, e in callers
+                            if len(g.kids(e)) > idx + (1 if g.nodes[e].get("member") else 0))
+                ctx.check(ok, rid, inst, "expected value is the snapshot of %s" % fld,
+                          "the CAS on %s at line %d expects '%s' (sources: %s), which is not a snapshot of %s: this swing can never succeed; if it is the helping "
+                          "swing, every other thread spins until the stalled owner of the half-finished append finishes (not lock-free)" % (
+                              fld, fn.nodes[c_]["l"], fn.expr(exp), ", ".join(sorted(s_)), fld), fn.where(c_), fn=fn)
